@@ -108,6 +108,22 @@ def ntag_history(sx, product, calls, nak_as):
             sim.pages[sim.cfg + 2] = new[0:4]
             sim.pages[sim.cfg + 3] = new[4:6] + [0, 0]
             sx.reach("ntag:key-replaced-between-calls")
+        if i > 0 and i == calls - 1 and sx.pick("gone%d" % i, [0, 1]):
+            # the tag leaves the field before the last call: the documented
+            # False (or a TagCommandError), nothing else
+            sim.gone = True
+            sx.reach("ntag:tag-gone-before-last-call")
+            for again in (0, 1):
+                # (twice: the first call notices that the tag is gone, the
+                # second runs on a tag object that knows it)
+                try:
+                    r = tag.authenticate(prev)
+                except nfc.tag.TagCommandError:
+                    r = "TagCommandError"
+                sx.check(r is False or r == "TagCommandError",
+                         "ntag:history:authenticate-on-a-tag-that-left-the-field:call%d+%d" % (i, again))
+                out.append(r)
+            break
         if prev is not None and sx.pick("again%d" % i, [1, 0]):
             p = prev
             sx.reach("ntag:same-password-again")
@@ -911,7 +927,7 @@ def partitions(tier):
 
 
 _REACH = [
-    "ntag:key-replaced-between-calls", "ntag:same-password-again",
+    "ntag:key-replaced-between-calls", "ntag:same-password-again", "ntag:tag-gone-before-last-call",
     "ntag:authenticated", "ntag:refused", "ntag:short-password-rejected",
     "ntag:protect-short-password-rejected", "ntag:protected",
     "ntag:second-accepted", "ntag:second-refused", "ntag:pack-answer-replaced",
